@@ -225,8 +225,6 @@ Definition composite_row_ok (r : row) : bool :=
   | _, _ => false
   end.
 
-Definition throw_row_ok (r : row) : bool :=
-  match r_tpath r with Some OThrow => true | _ => false end.
 
 Definition reviewed_method (c m : string) : bool :=
   match omethod c m, find (fun f => seqb (f_qual f) c && seqb (f_name f) m) rv_methods with
@@ -240,14 +238,40 @@ Definition reviewed_tensor (t : func) : bool :=
   | None => false
   end.
 
+(* a Node function with a reviewed body (split, batch::split: a guard that throws, then the operator) *)
+Definition reviewed_node (f : func) : bool :=
+  match find (same_key f) rv_node_funcs with
+  | Some v => func_eqb f v
+  | None => false
+  end.
+
+Definition has_reviewed_node (f : func) : bool :=
+  match find (same_key f) rv_node_funcs with Some _ => true | None => false end.
+
+(* the Node function of this row also constructs one of the special operators on another path *)
+Definition special_fn (r : row) : bool :=
+  existsb (fun r' => same_key (r_fn r') (r_fn r) && is_special r') R.
+
 (* special rows: regenerated FORWARD, FWD_SHAPE and Tensor function (and log_softmax, which the
-   composites call) are the reviewed ones *)
+   composites call) are the reviewed ones; so is the Node function when it has a guard *)
 Definition special_row_ok (r : row) : bool :=
   match row_op r, r_tfn r with
   | Some c, Some t =>
       reviewed_method c "forward" && reviewed_method c "forward_shape" && reviewed_tensor t &&
-      forallb (fun v => existsb (fun t' => func_eqb t' v) tensor_funcs) rv_tensor_funcs
+      forallb (fun v => existsb (fun t' => func_eqb t' v) tensor_funcs) rv_tensor_funcs &&
+      (match r_conds r with [] => negb (has_reviewed_node (r_fn r)) | _ => reviewed_node (r_fn r) end)
   | _, _ => false
+  end.
+
+(* a throw path: the Tensor function throws on the path with the same condition; for split /
+   batch::split (Tensor function = guards + loop, not a plain if/return body) the Node function
+   is the reviewed one, whose guard `n == 0 || total % n != 0` is the rejection condition of the
+   Tensor composite and of FWD_SHAPE (CompositeProofs.split_guard_agree) *)
+Definition throw_row_ok (r : row) : bool :=
+  match r_tpath r with
+  | Some OThrow => true
+  | _ => special_fn r && reviewed_node (r_fn r) &&
+         match r_tfn r with Some t => reviewed_tensor t | None => false end
   end.
 
 Definition deleg_row_ok (r : row) : bool :=
